@@ -7,9 +7,12 @@ import (
 	"crypto/tls"
 	"crypto/x509"
 	"crypto/x509/pkix"
+	"encoding/pem"
 	"errors"
 	"fmt"
 	"math/big"
+	"os"
+	"path/filepath"
 	"time"
 
 	mdns "github.com/miekg/dns"
@@ -25,6 +28,10 @@ var c13 struct {
 	expiredLeaf bool
 	nameOK      bool
 	pools       map[*x509.CertPool][]*x509.Certificate
+	// the host's system trust store contains the root of the logical chain
+	// (what a nil VerifyOptions.Roots falls back to)
+	systemTrustsRoot bool
+	nchain           int
 }
 
 var c13Names = [4]string{"00", "01", "02", "ff"} // association data designating cert 0,1,2 or nothing
@@ -84,6 +91,21 @@ func stubCertVerify(c *x509.Certificate, opts x509.VerifyOptions) ([][]*x509.Cer
 	if c13Index(c) != 0 {
 		return nil, errors.New("x509: (model) Verify called on a certificate that is not the leaf")
 	}
+	if opts.Roots == nil {
+		// documented behaviour: the system roots are used. The logical root
+		// (certificate 2) is in the system store or not; a path to it needs the
+		// intermediate (certificate 1) among the presented certificates.
+		haveInter := false
+		if len(c13.certs) >= 2 {
+			haveInter = c13In(opts.Intermediates, c13.certs[1])
+		}
+		ok := verifAnd(c13.systemTrustsRoot, verifAnd(haveInter, verifAnd(c13.isCA[1], c13.isCA[2])))
+		ok = verifAnd(ok, verifAnd(!c13.expiredLeaf, c13.nameOK))
+		if ok {
+			return [][]*x509.Certificate{c13.certs}, nil
+		}
+		return nil, errors.New("x509: certificate signed by unknown authority")
+	}
 	// written without short-circuit operators so that the model is one formula
 	valid := false
 	for k := 0; k < len(c13.certs); k++ {
@@ -104,6 +126,29 @@ func stubCertVerify(c *x509.Certificate, opts x509.VerifyOptions) ([][]*x509.Cer
 }
 
 const c13MX = "mx.example.org"
+
+var c13Root *x509.Certificate // the logical root of the last real chain
+
+// c13InstallSystemRoots points the process's system trust store (loaded lazily,
+// once) at a bundle that contains the logical root iff the model says so.
+func c13InstallSystemRoots() {
+	dir, err := os.MkdirTemp("", "c13-roots")
+	if err != nil {
+		panic(err)
+	}
+	bundle := filepath.Join(dir, "roots.pem")
+	var pemBytes []byte
+	if c13.systemTrustsRoot && c13Root != nil {
+		pemBytes = pem.EncodeToMemory(&pem.Block{Type: "CERTIFICATE", Bytes: c13Root.Raw})
+	}
+	if err := os.WriteFile(bundle, pemBytes, 0o600); err != nil {
+		panic(err)
+	}
+	empty := filepath.Join(dir, "empty")
+	os.Mkdir(empty, 0o700)
+	os.Setenv("SSL_CERT_FILE", bundle)
+	os.Setenv("SSL_CERT_DIR", empty)
+}
 
 // c13RealChain builds real certificates with the modelled properties (native replay only).
 func c13RealChain(n int) []*x509.Certificate {
@@ -159,6 +204,7 @@ func c13RealChain(n int) []*x509.Certificate {
 	for i := 0; i < n; i++ {
 		certs = append(certs, parsed[i])
 	}
+	c13Root = parsed[2]
 	return certs
 }
 
@@ -168,6 +214,8 @@ func harness_C13_verifyDANE() {
 	nchain = verifConcretize(nchain)
 	handshake := nondetBool("handshake")
 	c13.pools = nil
+	c13.systemTrustsRoot = nondetBool("systemTrustsRoot")
+	c13.nchain = nchain
 	c13.expiredLeaf = nondetBool("expiredLeaf")
 	c13.nameOK = nondetBool("nameOK")
 	for i := 0; i < 3; i++ {
@@ -180,6 +228,7 @@ func harness_C13_verifyDANE() {
 		}
 	} else {
 		c13.certs = c13RealChain(nchain)
+		c13InstallSystemRoots()
 	}
 
 	type recModel struct {
